@@ -197,6 +197,7 @@ func allowedStatuses(method, etag, im, inm string) map[int]bool {
 			imPass, imFail = false, true
 		case either:
 			imFail = true
+			out[400] = true // rejecting a malformed header outright is legitimate
 		}
 	}
 	if imFail {
@@ -221,6 +222,9 @@ func allowedStatuses(method, etag, im, inm string) map[int]bool {
 	case either:
 		out[hit] = true
 		out[0] = true
+		if reference(etag, inm).broken {
+			out[400] = true
+		}
 	}
 	return out
 }
